@@ -365,6 +365,91 @@ func c18CheckLong(c c18LongCase) engine.Result {
 	return res
 }
 
+// ---- nested use: the outer reader itself drives another adapter while ReadFrom is waiting for it
+
+type c18NestCase struct {
+	Adapter int `json:"adapter"`
+	Inner   int `json:"inner_adapter"`
+	Packets int `json:"packets"`
+	Tail    int `json:"tail"`
+	Chunk   int `json:"chunk"`
+}
+
+// c18NestReader forwards to the scripted reader; on its At-th call it first runs Do.
+type c18NestReader struct {
+	inner *ref.ScriptedReader
+	At    int
+	Do    func()
+	calls int
+}
+
+func (n *c18NestReader) Read(p []byte) (int, error) {
+	if len(p) > 0 {
+		n.calls++
+		if n.calls == n.At {
+			n.Do()
+		}
+	}
+	return n.inner.Read(p)
+}
+
+// c18CheckNest: while the outer ReadFrom is blocked in a Read of its source, that source (think of a
+// demultiplexer stage that forwards side data) completes a Write of two packets and a ReadFrom of a
+// 2.5-packet stream through ANOTHER adapter with its own packet writer. Neither transfer may affect
+// the other, wherever the nested transfer falls relative to the outer packet boundaries.
+func c18CheckNest(c c18NestCase) engine.Result {
+	var res engine.Result
+	data := c18Stream[:c.Packets*188+c.Tail]
+	side := c18LongStream[1000 : 1000+2*188]
+	side2 := c18LongStream[3000 : 3000+2*188+94]
+	probe := ref.ScriptedReader{Data: data, Chunk: c.Chunk}
+	var pw ref.ScriptedPacketWriter
+	pw.Reset(-1)
+	c18ReadFrom(c18Make(c.Adapter, &pw), &probe)
+	for at := 1; at <= probe.Calls; at++ {
+		sr := ref.ScriptedReader{Data: data, Chunk: c.Chunk}
+		var spw, inW, inR ref.ScriptedPacketWriter
+		spw.Reset(-1)
+		inW.Reset(-1)
+		inR.Reset(-1)
+		var wn int
+		var werr, rerr error
+		var rn int64
+		nr := &c18NestReader{inner: &sr, At: at, Do: func() {
+			wn, werr = c18Make(c.Inner, &inW).Write(append([]byte(nil), side...))
+			rn, rerr = c18ReadFrom(c18Make(c.Inner, &inR), &ref.ScriptedReader{Data: side2, Chunk: 100})
+		}}
+		var n int64
+		var err error
+		res.Evals++
+		if engine.Guard(&res, "ReadFrom|nested", func() { n, err = c18ReadFrom(c18Make(c.Adapter, &spw), nr) }) {
+			return res
+		}
+		desc := func() string {
+			return fmt.Sprintf("%s.ReadFrom over %d packets + %d bytes in pieces of %d; during Read call #%d the source runs Write(2 packets) and ReadFrom(2 packets + 94 bytes) on a separate %s",
+				c18Adapters[c.Adapter], c.Packets, c.Tail, c.Chunk, at, c18Adapters[c.Inner])
+		}
+		c18JudgeReadFrom(&res, data, &sr, &spw, n, err, desc)
+		// the nested transfers
+		if wn != len(side) || werr != nil || len(inW.Got) != 2 {
+			res.Failf("Write|nested-inside-a-ReadFrom|result", "%s: nested Write returned n=%d err=%v after %d deliveries", desc(), wn, werr, len(inW.Got))
+		} else {
+			c18Content(&res, "Write|nested-inside-a-ReadFrom|packets", &inW, 0, side, desc)
+		}
+		if rn != 2*188 || rerr != gots.ErrInvalidPacketLength || len(inR.Got) != 2 {
+			res.Failf("ReadFrom|nested-inside-a-ReadFrom|result", "%s: nested ReadFrom returned n=%d err=%v after %d deliveries", desc(), rn, rerr, len(inR.Got))
+		} else {
+			c18Content(&res, "ReadFrom|nested-inside-a-ReadFrom|packets", &inR, 0, side2, desc)
+		}
+		if len(res.Fail) > 8 {
+			break
+		}
+	}
+	res.Nontrivial = 1
+	res.Outcome(c.Packets, c.Tail, min(c.Chunk, 189))
+	return res
+}
+
 // ---- ReadFrom under the scripted environment (choice tree)
 
 func c18TreeBody(adapter, packets, tail int) func(ch *engine.Chooser) engine.Result {
@@ -477,6 +562,24 @@ func init() {
 			Check: c18CheckLong, Batch: 8,
 		},
 	}
+	scen = append(scen, &engine.Enum[c18NestCase]{
+		Name: "nested-adapters",
+		Rule: "outer ReadFrom (each of the 4 adapters) over 1..3 packets + tail {0,1,100} in pieces of {1,93,94,95,187,188,189,400} bytes; at EVERY Read call position the source itself first completes a Write of two packets and a ReadFrom of a 2.5-packet stream through a separate adapter (each of the 4 kinds) with its own packet writer: outer result judged as in readfrom-uniform-chunks, nested Write delivers its 2 packets (n = 376, nil), nested ReadFrom delivers its 2 packets (n = 376, invalid-length error); finds transfer state shared between adapter values",
+		Gen: func(r *engine.Run, emit func(c18NestCase)) {
+			for a := 0; a < 4; a++ {
+				for in := 0; in < 4; in++ {
+					for p := 1; p <= 3; p++ {
+						for _, t := range []int{0, 1, 100} {
+							for _, ch := range []int{1, 93, 94, 95, 187, 188, 189, 400} {
+								emit(c18NestCase{a, in, p, t, ch})
+							}
+						}
+					}
+				}
+			}
+		},
+		Check: c18CheckNest, Batch: 4,
+	})
 	// one choice tree per stream shape (the shape is not an environment answer and must not use up
 	// the deviation budget)
 	pks, tails := c18Shapes(true)
